@@ -371,6 +371,10 @@ fn main() {
     run_case(&run, &sumvec_case::<Field128>(Field128::p() - 1, 1, 7), &one, &tapes, false);
     run_case(&run, &sumvec_case::<Field128>(255, 3, 5), &wide, &tapes, false);
     run_case(&run, &sumvec_case::<Field64>(255, 3, 5), &one, &tapes, false);
+    // a LARGE instance: shares, states and aggregate shares above 64 KiB (any 16-bit length or count in a codec
+    // or in parameter derivation shows here)
+    run_case(&run, &sumvec_case::<Field128>(1, 5000, 70), &one, &tapes[..1], false);
+    run_case(&run, &histogram_case::<Field128>(4500, 67), &one, &tapes[3..4], false);
     // Histogram: lengths 1..9 x every chunk length 1..len+2
     for len in 1..=9usize {
         for chunk in 1..=len + 2 {
